@@ -30,6 +30,19 @@ func notClaimed() [][2]string {
 func props() []prop {
 	return []prop{
 		{
+			ID: "C04", Level: "exploration",
+			LevelText:   "PRNG scenarios of concurrent Asks, scripted responders, timeouts, Close, PipeTo and asker death run on the real futures in a synctest bubble, where 'not before the timeout', 'no later than the first due completion' and 'never completed' are exact; observers in 1-8 goroutines record (value, error, virtual instant); the oracle requires agreement of all observers (one-shot), the future's own first reply, completion at the earliest due candidate with the matching outcome, exactly one PipeResult per forwarder equal to Result(), and an empty future registry afterwards (hooked state). A second unit repeats the scenarios under the race detector (completion vs PipeTo vs timer).",
+			LevelNote:   "Trusted: synctest clock and quiescence; candidate instants are taken at the API boundary (ask processed, reply sent, kill/Close issued). Entrust futures get the one-shot check only through Context.Entrust users (not generated).",
+			Technique:   "history oracle over recorded completions under an exact virtual clock + hooked-state registry invariant + race detector",
+			DesignRef:   "DESIGN.md §4 C04",
+			Assumptions: with("ties of several completion causes at one virtual instant are accepted either way"),
+			Units: []unit{
+				{Check: "futures", Pkg: "internal/actor", Shards: [2]int{8, 16}, Timeout: [2]time.Duration{6 * min, 40 * min}, CrashKey: "c04-crash", HangKind: "c04-hang", OnlyKinds: []string{"c04-", "harness-"}},
+				{Check: "futuresinject", Pkg: "internal/actor", Instr: []string{"internal/actor/context.go", "internal/actor/system.go", "internal/future/future.go"}, Shards: [2]int{8, 16}, Timeout: [2]time.Duration{6 * min, 40 * min}, CrashKey: "c04-crash", HangKind: "c04-hang", OnlyKinds: []string{"c04-", "harness-"}},
+				{Check: "futuresrace", Pkg: "internal/actor", Race: true, Shards: [2]int{4, 16}, Timeout: [2]time.Duration{8 * min, 40 * min}, CrashKey: "c04-crash", HangKind: "c04-hang", OnlyKinds: []string{"c04-", "harness-", "data-race"}},
+			},
+		},
+		{
 			ID: "C19", Level: "exploration",
 			LevelText:   "Recorded histories of Subscribe/Unsubscribe/UnsubscribeAll/Publish (call and return stamps from one logical clock at the API boundary, unique event ids) with subscribers terminating and restarting, issued from racing goroutines on the real event stream in a synctest bubble, are checked per event type by porcupine against the sequential model 'set of subscribers' - which decides 'to exactly the current subscribers', 'no effect of a double subscribe' and 'not after Unsubscribe returned / termination' - plus exactly-once and per-publisher order ledgers and a hooked-state invariant on both subscriber tables at quiescence; a second unit repeats the histories under the race detector.",
 			LevelNote:   "Trusted: porcupine v1.3.0, the 10-line model, synctest quiescence for 'recipients(e)' (processed or dead-lettered). UnsubscribeAll contributes one op per type over the same interval (sound weakening).",
